@@ -88,7 +88,7 @@ static void elim_case(const vh_args_t *a, int op) {
      * PLUQ-based reduction) rounds down to nothing there */
     if (vh_randint(0, 5) == 0) { m = vh_randint(3, 8); n = 33000 + vh_randint(0, 200); }
   }
-  if (force_vwide) { wide = 1; m = vh_randint(3, 8); n = 33000 + vh_randint(0, 200); }
+  if (force_vwide) { wide = 1; m = vh_pick((int[]){1, 2, 3, 3, 5, 8}, 6); n = 33000 + vh_randint(0, 200); }   /* (few rows and many columns: the automatic k is smallest) */
   /* full row rank with a multiple of 64 rows and more columns than rows (the PLUQ-based reduction treats a rank that is a
    * multiple of the word size separately) */
   int fullrow = !wide && vh_randint(0, 7) == 0;
@@ -103,7 +103,7 @@ static void elim_case(const vh_args_t *a, int op) {
   int th = thr[vh_randint(0, 5)], heur = vh_randint(0, 1);
   static const char *nm[] = {"echelonize_naive", "echelonize_m4ri", "echelonize_pluq", "echelonize", "_echelonize_m4ri", "echelonize_m4ri"};
   if (op == E_TOP) full = 0;
-  if (force_vwide) full = 1;   /* (the full reduction is what applies the column permutation) */
+  if (force_vwide) { full = (op != E_TOP); k = 0; }   /* (the full reduction is what applies the column permutation; automatic k) */
   vh_begin(&e, nm[op]);
   vh_pi(&e, "full", full); vh_pi(&e, "k", k); vh_pi(&e, "heur", heur); vh_pi(&e, "thr", th);
   vh_opnd(&e, "A", 'b', A);
@@ -120,7 +120,7 @@ static void elim_case(const vh_args_t *a, int op) {
   VH_END(&e);
   vh_post(&e);
   if (op == E_TOP && !e.die) {
-    int k2 = vh_randint(0, 8);
+    int k2 = force_vwide ? 0 : vh_randint(0, 8);
     vh_begin(&e, "top_echelonize_m4ri");
     vh_pi(&e, "k", k2);
     vh_opnd(&e, "A", 'b', A);
@@ -229,7 +229,8 @@ int fam_elim(const vh_args_t *a) {
     VH_CASE(idx)
     /* (a fixed share of the cases: the PLUQ-based and the hybrid reduction on a very wide matrix) */
     force_vwide = (idx % 53 == 11);
-    elim_case(a, force_vwide ? ((idx / 53) % 2 ? E_HYBRID : E_PLUQ) : (int)(idx % E_NOPS));
+    { static const int vw[] = {E_PLUQ, E_HYBRID, E_M4RI, E_TOP};
+      elim_case(a, force_vwide ? vw[(idx / 53) % 4] : (int)(idx % E_NOPS)); }
     force_vwide = 0;
     VH_CASE_END
   }
